@@ -36,12 +36,13 @@ import (
 
 const id = "C06"
 
-// streamConfig: the oracle is cheap, so already the quick tier takes every
-// certificate seed with both single-mutation menus; thorough adds the third
-// model level and the pair menus (= C02's thorough stream).
+// streamConfig: the oracle is cheap, so already the quick tier takes the TLV
+// menu of every certificate seed and the byte-level menu of the whole quick
+// seed list; thorough = C02's thorough stream (every byte-level menu, third
+// model level, pair menus).
 func streamConfig(quick bool) certs.Config {
 	if quick {
-		return certs.Config{ModelDepth: 2, Shards: 96, AllSeeds: true, AllBytes: true}
+		return certs.Config{ModelDepth: 2, Shards: 96, AllSeeds: true, Bytes: certs.BytesQuickList}
 	}
 	return certs.DefaultConfig(false)
 }
@@ -230,6 +231,11 @@ func run(c *ev.Ctx) {
 		c.Broken("cannot write the seed file: %v", err)
 	}
 	units := certs.Units(cfg, seeds)
+	if cfg.ModelDepth >= 3 {
+		if got, want := certs.Level3Count(), xgen.CountAssignments(3)-xgen.CountAssignments(2); got != want {
+			c.Broken("level-3 units enumerate %d assignments, the model has %d", got, want)
+		}
+	}
 	c.Rule(certs.Describe(cfg, units) + ". Every accepted certificate (strict mode) is compared field by field with the oracle. " +
 		"CT-placement model: 8 canonical harness-made base certificates (extension lists of length 0..4; Ed25519, RSA, P-256 keys; self-issued and CA-issued) x every insertion of {poison, SCT list, SCT list with 2 entries} at every position and of {poison and SCT list} at every ordered pair of positions, re-signed; FingerprintNoCT must equal the base's. " +
 		"distinct_nontrivial = accepted certificates")
